@@ -293,6 +293,26 @@ def isometry_defect(mp, idx, left):
     return float(np.max(np.abs(g - c * np.eye(g.shape[0])))) if g.size else 0.0, c
 
 
+def sector_complete_cuts(gm, qntot, psi, rtol=1e-10):
+    """For every inner cut of the chain: is the Schmidt rank of the dense vector `psi` equal to the number of basis
+    states of the LEFT part, or of the RIGHT part, that the sector allows (some completion on the other side exists)?
+    One-site projector splitting is exact when this holds at every cut (from the inputs only: dense vector and labels)."""
+    from rv import dense
+    n = len(gm.basis)
+    qt = np.asarray(qntot).reshape(-1)
+    out = []
+    for c in range(1, n):
+        ql = dense.basis_qn(gm.basis[:c])
+        qr = dense.basis_qn(gm.basis[c:])
+        setr = {tuple(x) for x in (qt[None, :] - qr).tolist()}      # left labels that have a right partner
+        setl = {tuple(x) for x in (qt[None, :] - ql).tolist()}
+        nl = sum(1 for x in ql.tolist() if tuple(x) in setr)
+        nr = sum(1 for x in qr.tolist() if tuple(x) in setl)
+        rank = dense.schmidt_rank(psi, gm.dims, c, rtol=rtol)
+        out.append(rank == nl or rank == nr)
+    return out
+
+
 def exact_bond_caps(dims, squared=False):
     d = np.array(dims, dtype=float)
     if squared:
